@@ -148,7 +148,7 @@ func (e EnumSchema[S, T]) asType(d any) (S, T, error) {
 	var unserializedDefaultValue T
 	unserializedType := reflect.TypeOf(unserializedDefaultValue)
 
-	if !dValue.CanConvert(serializedType) {
+	if !dValue.IsValid() || !dValue.CanConvert(serializedType) {
 		return serializedDefaultValue, unserializedDefaultValue, &ConstraintError{
 			Message: fmt.Sprintf("%T is not a valid data type for an %T schema.", d, serializedDefaultValue),
 		}
